@@ -10,6 +10,10 @@ CHECKS = {
   "bounded exhaustive enumeration of (schema, value, presentation, observation mode, input path) over a small-scope alphabet that contains every varint/length boundary, every logical type and every union-lookup collision; each case is executed on the real serializer and deserializer and compared with an independent reference codec; thorough adds all 2^32 f32 bit patterns",
   "trusted: vmodel codec; the table of expected observations; bounds: schemas of <= 2 (quick) / 3 (thorough) composition levels, collections <= 2/3 items",
   "small-scope exhaustive enumeration (stateless DFS over the choice tree) against a reference model", "DESIGN.md §4 C01"),
+ "C02": ("model_checking",
+  "exhaustive enumeration of the matrix (schema node kind in context) x (serde presentation): every Serializer method, every integer width at its boundaries, strs/bytes/sequences around every fixed size, wrong length hints, field sets exact/missing/unknown/duplicated/permuted, named and type-directed union selection; every Ok result is decoded by the reference decoder and judged by a denotation relation that does not depend on the branch the crate chose",
+  "trusted: vmodel decoder; the denotation relation den() (DESIGN.md §4 C02); abstains on documented-lossy conversions (f64->float, decimal rescale, f64->decimal); bounds: one (quick) / two (thorough) levels of context around each node kind",
+  "small-scope exhaustive enumeration of a (schema x presentation) matrix against a reference decoder", "DESIGN.md §4 C02"),
 }
 
 # properties deliberately not claimed (reason)
